@@ -139,9 +139,22 @@ def payloadOf (kind : String) (w : Nat) : Option Payload :=
 
 def parseNatList (s : String) : List Nat := (s.splitOn ",").filterMap String.toNat?
 
+/-- `count` successive `AllocReqId` calls on a fresh service; the last `tail` results -/
+def allocRun (count tail : Nat) : List Nat :=
+  let rec go : Nat → Nat → Nat → List Nat → List Nat
+    | 0, _, _, acc => acc.reverse
+    | n + 1, i, x, acc =>
+      let y := allocId maxReqId x
+      go n (i + 1) y (if i + tail ≥ count then y :: acc else acc)
+  go count 0 0 []
+
 def stepModel (d : D) (line : String) : D × String :=
   let ws := words line
   match ws.head? with
+  | some "allocrun" =>
+    match kvNat ws "count", kvNat ws "tail" with
+    | some c, some t => (d, s!"ok ids={joinC ((allocRun c t).map toString)}")
+    | _, _ => (d, "bad-op")
   | some "reset" =>
     ({ s := init maxReqId ((kvNat ws "next").getD 0), started := true }, "ok")
   | some op =>
@@ -193,6 +206,7 @@ structure SS where
   now : Nat := 0
   insts : List Inst := []
   prevPend : List Nat := []
+  poisoned : Bool := false     -- a violation was already reported in this case: the bookkeeping is void
 
 structure CbEv where
   tag : String
@@ -239,9 +253,9 @@ def specStep (st : SS) (line : String) : SS × String :=
     match ws.head? with
     | some "reset" => ({}, if obs == "ok" then "ok" else viol "harness" "reset failed" op)
     | some opk =>
-      if os.head? == some "bad-op" then (st, "ok") else
+      if st.poisoned || os.head? == some "bad-op" then (st, "ok") else
       if (obs.splitOn "panic").length > 1 || (obs.splitOn "<no-observation").length > 1 then
-        (st, viol "crash" "the requester crashed or hung" op) else
+        ({ st with poisoned := true }, viol "crash" "the requester crashed or hung" op) else
       let now := if opk == "adv" then st.now + (kvNat ws "dt").getD 0 else st.now
       -- 1. instances issued during the op, ids the peer saw
       let newInsts : List Inst := (listOf os "iss").filterMap fun e =>
@@ -360,7 +374,7 @@ def specStep (st : SS) (line : String) : SS × String :=
         if opk == "req" && (((kv ws "s").getD "") == "N" || ((kv ws "s").getD "") == "n") && sortNat pend != sortNat st.prevPend then
           some (viol "notify-created-pending" s!"a notification changed the pending table {st.prevPend} -> {pend}" op) else none
       let res := firstSome [badSent, cbViol, serFail, ntfViol, missedAnswer, xMissing, pendViol, lostViol]
-      ({ now := now, insts := insts, prevPend := pend }, res.getD "ok")
+      ({ now := now, insts := insts, prevPend := pend, poisoned := res.isSome }, res.getD "ok")
     | none => (st, "ok")
   | _ => (st, "bad-line")
 
